@@ -42,6 +42,8 @@ type Case struct {
 	// writer which fails after FailAt bytes. Whatever that failed attempt
 	// leaves behind (buffers, pools) must not show in the encodings that follow.
 	FailAt int `json:"fail_at"`
+	// Source: the concrete type of the reader the decoders are given (hio.SourceKinds)
+	Source string `json:"source,omitempty"`
 }
 
 // failAfter accepts n bytes, then fails.
@@ -74,7 +76,8 @@ func genCase(t *rapid.T) Case {
 	}
 	c := Case{Sig: ty.Sig(), Hex: hex.EncodeToString(ref.Encode(ty, v)),
 		Trailer: hex.EncodeToString(rapid.SliceOfN(rapid.Byte(), 0, 6).Draw(t, "trailer")),
-		Chunks:  gen.FragPlan().Draw(t, "plan").Chunks, Desc: desc, FailAt: -1}
+		Chunks:  gen.FragPlan().Draw(t, "plan").Chunks, Desc: desc, FailAt: -1,
+		Source: rapid.SampledFrom(hio.SourceKinds).Draw(t, "source")}
 	if n := len(c.Hex) / 2; n > 0 && rapid.IntRange(0, 3).Draw(t, "failfirst") == 0 {
 		c.FailAt = rapid.IntRange(0, n-1).Draw(t, "failat")
 	}
@@ -155,6 +158,15 @@ func checkCase(c Case) error {
 		return vt.Violationf(classFor(ty, "encoder-error"), "Encode(%s %s) failed: %v", c.Sig, c.Desc, err)
 	}
 	enc := buf.Bytes()
+	if !ty.Contains(ref.KMap) {
+		// a plain io.Writer is given the same bytes as the bytes.Buffer
+		// (maps: the order of the entries is Go's and differs between two encodings)
+		rec := &hio.RecWriter{}
+		err, p := safely(func() error { return encoding.NewEncoder(encoding.DefaultCap(), rec).Encode(gv.Interface()) })
+		if p != nil || err != nil || !bytes.Equal(rec.Bytes(), enc) {
+			return vt.Violationf(classFor(ty, "encoder-layout:plain-writer"), "Encode(%s %s) into a plain io.Writer: %v %v\n got  %x\n want %x", c.Sig, c.Desc, err, p, rec.Bytes(), enc)
+		}
+	}
 	if len(enc) != len(refBytes) {
 		return vt.Violationf(classFor(ty, "encoder-length"), "Encode(%s %s) produced %d bytes, the documented serialization has %d\n got  %x\n want %x", c.Sig, c.Desc, len(enc), len(refBytes), enc, refBytes)
 	}
@@ -172,7 +184,7 @@ func checkCase(c Case) error {
 		return vt.Violationf("C03:parse", "Parse(%q): %v", c.Sig, err)
 	}
 	for _, input := range [][]byte{refBytes, enc} {
-		r := hio.NewFragReader(append(append([]byte{}, input...), trailer...), c.Chunks, false)
+		r, consumed := hio.Source(c.Source, append(append([]byte{}, input...), trailer...), c.Chunks, false)
 		got, err := st.Reader().Read(r)
 		if err != nil {
 			return vt.Violationf(classFor(ty, "reader-error"), "Reader(%s).Read of a valid encoding of %s failed: %v", c.Sig, c.Desc, err)
@@ -180,8 +192,8 @@ func checkCase(c Case) error {
 		if !bytes.Equal(got, input) {
 			return vt.Violationf(classFor(ty, "reader-bytes"), "Reader(%s).Read returned different bytes\n got  %x\n want %x", c.Sig, got, input)
 		}
-		if r.Pos != len(input) {
-			return vt.Violationf(classFor(ty, "reader-consumed"), "Reader(%s).Read consumed %d of %d bytes", c.Sig, r.Pos, len(input))
+		if consumed() != len(input) {
+			return vt.Violationf(classFor(ty, "reader-consumed"), "Reader(%s).Read consumed %d of %d bytes", c.Sig, consumed(), len(input))
 		}
 	}
 
@@ -190,7 +202,7 @@ func checkCase(c Case) error {
 	for i, input := range [][]byte{refBytes, enc} {
 		which := []string{"documented bytes", "encoder output"}[i]
 		ptr := reflect.New(gv.Type())
-		r := hio.NewFragReader(append(append([]byte{}, input...), trailer...), c.Chunks, false)
+		r, consumed := hio.Source(c.Source, append(append([]byte{}, input...), trailer...), c.Chunks, false)
 		err, p := safely(func() error { return encoding.NewDecoder(encoding.DefaultCap(), r).Decode(ptr.Interface()) })
 		if p != nil {
 			return vt.Violationf(classFor(ty, "decoder-panic"), "Decode(%s) of %s panicked: %v", c.Sig, which, p)
@@ -205,8 +217,8 @@ func checkCase(c Case) error {
 		if !ref.Equal(got, v) {
 			return vt.Violationf(classFor(ty, "decoder-value"), "Decode(%s) of %s = %s, want %s", c.Sig, which, ref.Render(got), c.Desc)
 		}
-		if r.Pos != len(input) {
-			return vt.Violationf(classFor(ty, "decoder-consumed"), "Decode(%s) consumed %d of %d bytes", c.Sig, r.Pos, len(input))
+		if consumed() != len(input) {
+			return vt.Violationf(classFor(ty, "decoder-consumed"), "Decode(%s) consumed %d of %d bytes", c.Sig, consumed(), len(input))
 		}
 	}
 
